@@ -172,11 +172,15 @@ def parseCmd : P String := do
     | .ok i =>
         let (tOK, tTight) := rowsValid i.T (i.S * i.A) i.S
         let (wOK, wTight) := if isP then rowsValid i.W (i.S * i.A) i.O else (true, false)
-        let dOK := !discountRejected i.disc
-        let dNan := i.disc == XRat.nan
+        -- the property's own notion of a valid discount: a number in (0, 1]
+        let dOK : Bool := match i.disc with | .fin q => decide (0 < q) && decide (q ≤ 1) | _ => false
+        let dNan := false
         let valid := tOK && wOK
         let tight := tTight || wTight
         if tight then (v, true) else
+        -- L2b for the entry point: the model of the constructor checks predicts accept / reject
+        let mcOK := match parseCassandra flags tol k text with | .ok _ => true | .error _ => false
+        let v := v.diffIf (mp.toOption.isSome && mcOK != ic.toOption.isSome) s!"parseCassandra model accepts={mcOK} impl accepts={ic.toOption.isSome}"
         match ic with
         | .ok m =>
             -- property clauses on the implementation's own output
